@@ -3,6 +3,7 @@
 // every offset 0..69 relative to 16/32-byte blocks, and are parsed as root value, array element, object key,
 // on-demand key and UpdateLazy key.
 #include <cstring>
+#include <thread>
 #include <memory>
 
 #include "common/genjson.hpp"
@@ -434,6 +435,39 @@ static void property(Src& s, Case& c) {
   c.nt(!e.accept || (body.size() >= 16 && (body.find('\\') != std::string::npos)) || kind == "raw-high" || kind == "raw-control");
   if (c.counting) c.desc(std::string(cn[ctx]) + " pad=" + std::to_string(pad) + " \"" + printable(body, 100) + "\"");
   std::string m = judge(body, ctx, pad, c);
+  if (m.empty() && e.accept && s.coin(1, 100)) {
+    // four threads look escaped keys up in texts of their own at the same time: decoding a key is a function of its literal only
+    c.cls("four-threads");
+    std::string lits[4] = {"\"" + body + "\"", "\"t\\tb\"", "\"" + body + "\\n" + "\"", "\"q\\\"" + std::string(20, 'z') + "\""};
+    std::string keys[4];
+    bool usable = true;
+    for (int t = 0; t < 4; t++) {
+      std::string inner = lits[t].substr(1, lits[t].size() - 2);
+      bool bs = false;
+      if (refjson::unescape(inner.data(), inner.size(), keys[t], &bs) != refjson::kNone || bs) usable = false;
+    }
+    if (usable) {
+      std::string bad[4];
+      std::vector<std::thread> th;
+      for (int t = 0; t < 4; t++)
+        th.emplace_back([&, t] {
+          std::string text = "{\"a\\u0041\":0,\"zz\\n\":1," + lits[t] + ":" + std::to_string(1000 + t) + ",\"yy\":{}}";
+          JsonPointer jp;
+          jp /= JsonPointerNode(keys[t]);
+          for (int rep = 0; rep < 400 && bad[t].empty(); rep++) {
+            sonic_json::StringView target;
+            ParseResult r = GetOnDemand(sonic_json::StringView(text.data(), text.size()), jp, target);
+            if (keys[t] == "aA" || keys[t] == "zz\n" || keys[t] == "yy") break;
+            if (r.Error() != kErrorNone || std::string(target.data(), target.size()) != std::to_string(1000 + t))
+              bad[t] = "error " + std::to_string((int)r.Error()) + " slice " + printable(std::string(target.data(), target.size()), 40);
+          }
+        });
+      for (auto& x : th) x.join();
+      c.subevals += 1600;
+      for (int t = 0; t < 4 && m.empty(); t++)
+        if (!bad[t].empty()) m = "with four threads looking up escaped keys in their own texts, thread " + std::to_string(t) + " got " + bad[t];
+    }
+  }
   if (!m.empty()) c.fail(m + " | body=" + printable(body, 300) + " ctx=" + cn[ctx] + " pad=" + std::to_string(pad));
 }
 
